@@ -728,3 +728,46 @@ func rulePHASH(p *Program, r *Reporter) {
 		}
 	}
 }
+
+// rulePNILmon: the server's monitor filter must tolerate a monitor request
+// without "select" and a table that has no explicit request entry.
+func rulePNILmon(p *Program, r *Reporter) {
+	const id = "P-NIL-MON"
+	n := 0
+	for _, fn := range p.srcFuncs {
+		if pkgOf(fn) != "server" {
+			continue
+		}
+		fc := newFlowCtx(fn)
+		derefSites(fn, func(v ssa.Value) string {
+			if f := optionalPtrField(v); f != nil && fieldOwner[f] == "MonitorRequest" {
+				return "MonitorRequest." + f.Name()
+			}
+			var lk *ssa.Lookup
+			switch x := v.(type) {
+			case *ssa.Lookup:
+				lk = x
+			case *ssa.Extract:
+				lk, _ = x.Tuple.(*ssa.Lookup)
+				if x.Index != 0 {
+					lk = nil
+				}
+			}
+			if lk != nil {
+				if mt, ok := lk.X.Type().Underlying().(*types.Map); ok && isNamed(mt.Elem(), repoMod+"/ovsdb", "MonitorRequest") {
+					if _, isPtr := mt.Elem().(*types.Pointer); isPtr {
+						return "request[table]"
+					}
+				}
+			}
+			return ""
+		}, func(at ssa.Instruction, ptr ssa.Value, label string) {
+			n++
+			ok, why := fc.nonNilAt(ptr, at)
+			if !ok {
+				why = label + " is dereferenced without a dominating != nil test: a monitor request that omits it makes the server panic while notifying"
+			}
+			r.Ob(id, funcName(fn), "deref "+label, at.Pos(), ok, true, why)
+		})
+	}
+}
